@@ -116,7 +116,21 @@ func showIDs[T any](seq hseq.Seq[T]) string {
 	return sb.String()
 }
 
-func list[T any](req string) { emit(req, try(func() string { return showSeq(hseq.New[T]()) })) }
+// The listing returned by hseq.New belongs to the caller: after printing it the harness overwrites every entry and
+// re-slices it, as a caller filtering or sorting its listing in place would. Every later request on the same type
+// (they all unfold again) must be unaffected.
+func list[T any](req string) {
+	emit(req, try(func() string {
+		seq := hseq.New[T]()
+		out := showSeq(seq)
+		for i := range seq {
+			seq[i] = hseq.Type[T]{ID: -7}
+		}
+		seq = append(seq[:0], hseq.Type[T]{ID: -8})
+		_ = seq
+		return out
+	}))
+}
 
 func forName[T any](req, name string) {
 	emit(req, try(func() string { return fmt.Sprintf("ok %d", hseq.ForName(hseq.New[T](), name).ID) }))
